@@ -1,3 +1,5 @@
-import Props.C10
+import Props.C10b
 #print axioms C10.linear_roundtrip
 #print axioms C10.alias_roundtrip
+#print axioms C10.roundtrip_pow
+#print axioms C10.power_law_roundtrip
